@@ -121,7 +121,8 @@ func Monitor(h *History, log []RPCRecord, tsos []TSORecord, ticks ...TickRecord)
 		asyncMin   uint64          // max min_commit_ts over secondary locks seen (async derivation)
 		asyncSeen  bool
 		ttl0       bool   // a lock of the txn with ttl 0 was observed
-		lockTTL    uint64 // largest ttl observed in lock infos
+		lockTTL    uint64 // largest ttl observed in lock infos / status answers
+		gc         bool   // the client checked this transaction on the GC path (every lock at or below the safe point counts as expired)
 	}
 	kn := map[string]*know{}
 	kget := func(c int, s uint64) *know {
@@ -296,6 +297,9 @@ func Monitor(h *History, log []RPCRecord, tsos []TSORecord, ticks ...TickRecord)
 			forced := q.CurrentTs == math.MaxUint64
 			gcPath := q.CallerStartTs == 0 && q.CurrentTs == math.MaxUint64
 			mi := maxIssued(r.Client, r.Seq)
+			if gcPath {
+				k.gc = true
+			}
 			expiredOnOwnClock := k.lockTTL > 0 && physical(mi) >= physical(q.LockTs)+int64(k.lockTTL)
 			if forced && !gcPath && !k.ttl0 && !expiredOnOwnClock {
 				add("forced-expiry-of-live-lock", "client %d asks to expire transaction %d unconditionally (current_ts=max) although its lock (ttl %d ms) has not outlived its TTL on the client's clock (largest issued ts physical %d, lock physical %d)", r.Client, q.LockTs, k.lockTTL, physical(mi), physical(q.LockTs))
@@ -314,6 +318,9 @@ func Monitor(h *History, log []RPCRecord, tsos []TSORecord, ticks ...TickRecord)
 					} else if resp.LockTtl == 0 && resp.Action != kvrpcpb.Action_MinCommitTSPushed && resp.Action != kvrpcpb.Action_LockNotExistDoNothing {
 						k.rolledBack = true
 					}
+					if resp.LockTtl > k.lockTTL {
+						k.lockTTL = resp.LockTtl // the primary's ttl as the store reports it (heart-beats raise it)
+					}
 					if resp.LockInfo != nil {
 						noteLock(r.Client, resp.LockInfo)
 						if resp.LockInfo.UseAsyncCommit {
@@ -327,6 +334,13 @@ func Monitor(h *History, log []RPCRecord, tsos []TSORecord, ticks ...TickRecord)
 			}
 		case *kvrpcpb.CheckSecondaryLocksRequest:
 			k := kget(r.Client, q.StartVersion)
+			// (e) the async-commit recovery (which rolls back missing secondaries) may start only when the
+			// transaction's primary lock has outlived its TTL on the resolver's clock (or is gone)
+			if x, ok := st[q.StartVersion]; !(ok && x.owner == r.Client) && !k.gc && !k.ttl0 && !k.rolledBack && len(k.commitTS) == 0 && k.lockTTL > 0 {
+				if mi := maxIssued(r.Client, r.Seq); mi != 0 && physical(mi) < physical(q.StartVersion)+int64(k.lockTTL) {
+					add("async-recovery-of-live-transaction", "client %d starts the async-commit recovery (CheckSecondaryLocks) of transaction %d although the largest lock ttl it was told (%d ms, the primary's) has not run out on its clock (largest issued ts physical %d, lock physical %d)", r.Client, q.StartVersion, k.lockTTL, physical(mi), physical(q.StartVersion))
+				}
+			}
 			if respOK(r) {
 				resp := r.Resp.Resp.(*kvrpcpb.CheckSecondaryLocksResponse)
 				if resp.Error == nil {
